@@ -298,6 +298,11 @@ def shards(tier):
     for k in range(0, K + 1):
         for acts in itertools.product(ACTIONS, repeat=k):
             out.append({"fn": "known", "consts": {"acts": list(acts)}, "timeout": 600, "twin": "first", "cover": "first"})
+    if K == 2:
+        # three-step sequences in which an earlier save or reload could leave something stale behind
+        for acts in (("read", "save", "mutate_ref"), ("mutate", "save", "mutate_ref"), ("read", "reload", "mutate"), ("assign", "save", "mutate_ref"),
+                     ("read", "save", "assign"), ("type_other", "save", "mutate"), ("save", "read", "mutate_ref")):
+            out.append({"fn": "known", "consts": {"acts": list(acts)}, "timeout": 600, "twin": False, "cover": False})
     for k in range(0, K + 1):
         for acts in itertools.product(("leave", "read", "mutate", "save", "reload"), repeat=k):
             out.append({"fn": "known_tuple", "consts": {"acts": list(acts)}, "timeout": 600, "twin": "first", "cover": "first"})
